@@ -167,8 +167,10 @@ def run_rules(prop, tier='quick', overlay=None, repo=None):
   ctx = Ctx(prop, tier, overlay=overlay, repo=repo)
   ctx.P.check_floors()
   mod.run(ctx)
-  for rule, n in getattr(mod, 'FLOORS', {}).items():
-    ctx.floor(rule, n)
+  # floors guard against a vacuous *pass*; when violations were found they are the verdict
+  if all(o.ok for o in ctx.obligations):
+    for rule, n in getattr(mod, 'FLOORS', {}).items():
+      ctx.floor(rule, n)
   return ctx
 
 
